@@ -597,6 +597,10 @@ func Run(r *mc.Run) {
 			return !r.Expired()
 		})
 
+	// ---- scenario 1f: archives LONGER than any window a reader might keep (4 KiB, 8 KiB, 64 KiB): many members, so
+	// that 60-byte headers start at every (even) residue modulo those sizes and straddle their multiples ----
+	largeArchives(r)
+
 	// ---- scenario 1d: members that are tars - IsTarfile / Tarfile called directly on what Next returns ----
 	tarScenarios(r)
 
@@ -683,3 +687,125 @@ func Run(r *mc.Run) {
 }
 
 var okClass = [2]string{"ok conv=0", "ok conv=1"}
+
+// ---- large archives ----
+
+func bigMember(i, size int) gen.ArmMember {
+	d := make([]byte, size)
+	for j := range d {
+		d[j] = byte((i*7 + j) % 251)
+	}
+	return gen.ArmMember{Name: fmt.Sprintf("m%d", i), TS: fmt.Sprint(1000 + i), UID: fmt.Sprint(i % 1000), GID: "3", Mode: "644", Data: d}
+}
+
+func largeArchives(r *mc.Run) {
+	type la struct {
+		desc string
+		ms   []gen.ArmMember
+	}
+	var as []la
+	patterns := []struct {
+		name string
+		size func(i, n int) int
+	}{
+		{"all 0 bytes (stride 60)", func(i, n int) int { return 0 }},
+		{"all 1 byte (stride 62)", func(i, n int) int { return 1 }},
+		{"all 8 bytes (stride 68)", func(i, n int) int { return 8 }},
+		{"sizes cycling 0..61", func(i, n int) int { return i % 62 }},
+		{"a 4000-byte member first, then 8 bytes", func(i, n int) int {
+			if i == 0 {
+				return 4000
+			}
+			return 8
+		}},
+		{"a 70000-byte member in the middle, else 8 bytes", func(i, n int) int {
+			if i == n/2 {
+				return 70000
+			}
+			return 8
+		}},
+	}
+	for _, n := range []int{13, 50, 64, 65, 80, 200, 1000} {
+		for _, p := range patterns {
+			ms := make([]gen.ArmMember, n)
+			for i := range ms {
+				ms[i] = bigMember(i, p.size(i, n))
+			}
+			as = append(as, la{fmt.Sprintf("%d members, %s", n, p.name), ms})
+		}
+	}
+	// sweep: a first member of 0..67 bytes shifts the 80 following 68-byte strides over every even residue, so that
+	// for every even k in [4096-59, 4096-1] some header starts at k modulo 4096
+	for s0 := 0; s0 <= 67; s0++ {
+		ms := []gen.ArmMember{bigMember(0, s0)}
+		for i := 1; i <= 80; i++ {
+			ms = append(ms, bigMember(i, 8))
+		}
+		as = append(as, la{fmt.Sprintf("first member %d bytes, then 80 members of 8 bytes", s0), ms})
+	}
+	// self-check of the generator: the sweep really puts a header start on every even offset of the last 60 bytes before 4096
+	hit := map[int]bool{}
+	for _, a := range as[len(as)-68:] {
+		offs, _ := gen.ArmOffsets(a.ms)
+		for _, o := range offs {
+			hit[o%4096] = true
+		}
+	}
+	for k := 4096 - 58; k < 4096; k += 2 {
+		if !hit[k] {
+			r.HarnessError("large-archives: no header starts at %d modulo 4096", k)
+		}
+	}
+	kinds := []int{0, 8, 1}
+	r.Scenario("large-archives", map[string]interface{}{"archives": len(as), "member_counts": []int{13, 50, 64, 65, 80, 200, 1000}, "size_patterns": len(patterns),
+		"sweep":        "first member 0..67 bytes + 80 x 8 bytes: a header starts at every even offset in [4096-58, 4096-2] modulo 4096 (checked)",
+		"reader_kinds": []string{gen.ArmReaderKinds[0], gen.ArmReaderKinds[8], gen.ArmReaderKinds[1]},
+		"schedules":    "walk reading each member, two EOFs | walk to the end, read all members in REVERSE order, then rewind and re-read every member first to last"},
+		len(as), func(ai int, st *mc.Stats) bool {
+			lim := limiter{}
+			ms := as[ai].ms
+			n := len(ms)
+			b := gen.ArmBuild(ms)
+			exp := expectAll(ms)
+			nx := Op{K: "next"}
+			var s1, s2 []Op
+			for i := 0; i < n; i++ {
+				s1 = append(s1, nx, Op{K: "all", I: i})
+			}
+			s1 = append(s1, nx, nx)
+			for i := 0; i < n+2; i++ {
+				s2 = append(s2, nx)
+			}
+			for i := n - 1; i >= 0; i-- {
+				s2 = append(s2, Op{K: "all", I: i})
+			}
+			for i := 0; i < n; i++ {
+				s2 = append(s2, Op{K: "seek", I: i})
+			}
+			s2 = append(s2, nx)
+			for _, conv := range kinds {
+				for _, ops := range [][]Op{s1, s2} {
+					_, f := runOps(b, exp, conv, ops)
+					st.Evals++
+					st.Traces++
+					st.Transitions += int64(len(ops))
+					if int64(len(ops)) > st.MaxDepth {
+						st.MaxDepth = int64(len(ops))
+					}
+					if f != nil {
+						st.Class("violation:" + f.clause)
+						if lim.ok(f.clause + fmt.Sprint(conv)) {
+							record(st, checkSeq("large-archives", In{Members: ms, Conv: conv, Ops: ops}))
+						}
+					} else {
+						st.Class(fmt.Sprintf("ok %d bytes or more", len(b)/4096*4096))
+					}
+				}
+			}
+			st.Nontrivial++
+			if ai%37 == 0 && st.WantSample() {
+				st.Sample(map[string]interface{}{"archive": as[ai].desc, "bytes": len(b)})
+			}
+			return !r.Expired()
+		})
+}
